@@ -677,7 +677,10 @@ class FnEmitter:
                 if da.startswith('ptrtoint') and db.startswith('ptrtoint'):
                     def src(dl):
                         q = Sc(dl); q.word(); pt = parse_type(q); pv = parse_value(q, pt); return s.val(pt, pv)
-                    try: return setres(t, '((uint64_t)((char*)%s - (char*)%s))' % (src(da), src(db)))
+                    try:
+                        A_ = src(da); B_ = src(db)
+                        # null - null (empty std::vector) is 0 in C++; keep it away from C's pointer-subtraction rules
+                        return setres(t, '((char*)%s == (char*)%s ? (uint64_t)0 : (uint64_t)((char*)%s - (char*)%s))' % (A_, B_, A_, B_))
                     except Exception: pass
             return setres(t, s.bin_expr(op, t, s.val(t, a), s.val(t, b)))
         if op == 'icmp':
